@@ -1,3 +1,7 @@
-From QV Require Import model.Base model.Lang model.Types model.Tir model.Builder model.Passes model.TirCase gen.GenE0 proofs.InterpProofs props.C07.
+From QV Require Import model.Base model.Lang model.Types model.Tir model.Builder model.Passes model.TirCase gen.GenE0 proofs.InterpProofs proofs.BuilderSafe props.C07.
 Check (C07_interp_total : forall E c, evaluate_code E c <> OutOfFuel).
 Check (C07_repaired_inputs).
+Check (C07_expressions_never_panic : forall E env L e s,
+  (forall x l k, lenv_get env x = Some (l, k) -> l < L)%nat -> Good s -> (L <= List.length (bs_locals s))%nat ->
+  match walk_expr E env e s with (P _, _) => False | (_, s') => RegB (nb s) s s' end).
+Check (C07_initial_state_good : Good bstate0).
